@@ -207,16 +207,18 @@ Section PolyC.
 End PolyC.
 
 Section BezierRadial.
-  Variables (atol rtol : R) (p : list (Cplx R)) (point : R -> Cplx R) (z : Cplx R) (roots : list (Cplx R)).
+  Variables (fixed : bool) (atol rtol : R) (p : list (Cplx R)) (point : R -> Cplx R) (z : Cplx R)
+            (roots : list (Cplx R)).
   Hypothesis Hatol : 0 < atol.
+  Hypothesis Hrtol : 0 <= rtol.
   Hypothesis Hp : p <> [].
   Hypothesis Hpoint : forall t, point t = cpeval NumR p t.     (* C03: point(t) = poly()(t) *)
 
   Notation G := (peval NumR (r_squared NumR p z)).
-  Notation cands := (radial_cands NumR atol rtol roots).
+  Notation cands := (radial_cands NumR fixed atol rtol roots).
   Definition rad (t : R) : R := cabs NumTR (csub NumR (point t) z).
   Definition ext : list (R * R) := map (fun t => (rad t, t)) cands.
-  Lemma brr_unfold : bezier_radialrange NumR NumTR atol rtol point z roots = (kmin NumR ext, kmax NumR ext).
+  Lemma brr_unfold : bezier_radialrange NumR NumTR fixed atol rtol point z roots = (kmin NumR ext, kmax NumR ext).
   Proof. reflexivity. Qed.
 
   Lemma rad_sqrt t : rad t = sqrt (G t).
@@ -232,7 +234,7 @@ Section BezierRadial.
   (* unconditional: both returned parameters are in [0,1] and the returned
      distances are the distances at those parameters *)
   Theorem bezier_radial_attained :
-    let '((dmin, tmin), (dmax, tmax)) := bezier_radialrange NumR NumTR atol rtol point z roots in
+    let '((dmin, tmin), (dmax, tmax)) := bezier_radialrange NumR NumTR fixed atol rtol point z roots in
     0 <= tmin <= 1 /\ 0 <= tmax <= 1 /\ dmin = dist (point tmin) z /\ dmax = dist (point tmax) z.
   Proof.
     rewrite brr_unfold.
@@ -246,8 +248,8 @@ Section BezierRadial.
 
   (* global under the oracle contract *)
   Theorem bezier_radial_global :
-    oracle_ok (r_squared_deriv NumR p z) roots -> separated atol rtol (le01 NumR) roots ->
-    let '((dmin, tmin), (dmax, tmax)) := bezier_radialrange NumR NumTR atol rtol point z roots in
+    oracle_ok (r_squared_deriv NumR p z) roots -> separated fixed atol rtol (le01 NumR) roots ->
+    let '((dmin, tmin), (dmax, tmax)) := bezier_radialrange NumR NumTR fixed atol rtol point z roots in
     forall t, 0 <= t <= 1 -> dmin <= dist (point t) z <= dmax.
   Proof.
     intros Hor Hsep. rewrite brr_unfold.
@@ -256,13 +258,13 @@ Section BezierRadial.
     cbn [fst] in *. intros t Ht.
     assert (Hcs : (exists s, peval NumR (pderiv NumR (r_squared NumR p z)) s <> 0) ->
                   forall u, 0 < u < 1 -> peval NumR (pderiv NumR (r_squared NumR p z)) u = 0 ->
-                            In u (polyroots01 NumR atol rtol roots)).
+                            In u (polyroots01 NumR atol rtol fixed roots)).
     { intros Hnz u Hu H0. apply polyroots_complete; auto.
       - apply Hor; auto. lra.
       - apply le01_R. lra. }
     destruct (@extreme_at_candidates_nz_ex G _ (peval_derivable _) _ Hcs t Ht)
       as [(c & Hc & Hle) (c' & Hc' & Hge)].
-    change (0 :: 1 :: polyroots01 NumR atol rtol roots) with cands in Hc, Hc'.
+    change (0 :: 1 :: polyroots01 NumR atol rtol fixed roots) with cands in Hc, Hc'.
     change (cabs NumTR (csub NumR (point t) z)) with (rad t).
     split.
     - eapply Rle_trans; [apply (Hmin (rad c, c))|].
